@@ -22,16 +22,22 @@ def run(ctx):
     T = ctx.thorough
     ctx.tlc_mc("MC_PNQueue", "MC_PNQueue_big.cfg" if T else "MC_PNQueue.cfg", coverage=T)
     ctx.tlc_mc("MC_Bbr", "MC_Bbr_big.cfg" if T else "MC_Bbr.cfg", coverage=T)
-    muts = [("MC_PNQueue", "MC_PNQueue_mutClearup.cfg"), ("MC_PNQueue", "MC_PNQueue_mutGrow.cfg"),
-            ("MC_Bbr", "MC_Bbr_mutRecFloor.cfg"), ("MC_Bbr", "MC_Bbr_mutPrune.cfg")]
     if T:
-        muts += [("MC_PNQueue", "MC_PNQueue_mutPop.cfg"), ("MC_Bbr", "MC_Bbr_mutClamp.cfg"),
+        ctx.tlc_mc("MC_PNQueue", "MC_PNQueue2_big.cfg")
+        ctx.tlc_mc("MC_Bbr", "MC_Bbr_big2.cfg", timeout=1200)
+    # quick: one model mutant per Sys module (non-vacuity); thorough: all eight
+    muts = [("MC_PNQueue", "MC_PNQueue_mutClearup.cfg"), ("MC_Bbr", "MC_Bbr_mutRecFloor.cfg")]
+    if T:
+        muts += [("MC_PNQueue", "MC_PNQueue_mutGrow.cfg"), ("MC_Bbr", "MC_Bbr_mutPrune.cfg"),
+                 ("MC_PNQueue", "MC_PNQueue_mutPop.cfg"), ("MC_Bbr", "MC_Bbr_mutClamp.cfg"),
                  ("MC_Bbr", "MC_Bbr_mutMinBps.cfg"), ("MC_Bbr", "MC_Bbr_mutMds.cfg")]
     for mod, cfg in muts:
         ctx.tlc_mc(mod, cfg, expect_violation=True)
     q = ctx.tlc_gen("MC_PNQueue", "Gen_PNQueue.cfg", num=1500 if T else 150, depth=15)
+    if T:
+        q = q + ctx.tlc_gen("MC_PNQueue", "Gen_PNQueue2.cfg", num=1500, depth=15)
     ctx.write_scenarios("pnqueue", q)
-    s = ctx.tlc_gen("MC_Bbr", "Gen_Bbr.cfg", num=2000 if T else 100, depth=15)
+    s = ctx.tlc_gen("MC_Bbr", "Gen_Bbr.cfg", num=2000 if T else 60, depth=14)
     ctx.write_scenarios("bbr", s)
     ctx.go_test("core", "./internal/congestion/bbr/", "TestVerif_C12", ["harness/core/internal/congestion/bbr/c12_queue_test.go",
                                                                           "harness/core/internal/congestion/bbr/c12_bbr_test.go"])
